@@ -1107,6 +1107,7 @@ static std::string sig_of(const std::string& rule, const Op& op) { return rule +
 static SeqResult run_seq(const Seq& q, Ctx& c, uint64_t beforeHash = 0)
 {
    install_guard();
+   if(g_myshm) g_myshm->seq++;    // progress for the runner's watchdog is per sequence, not per case (a case is a whole subtree)
    SeqResult res;
    void* h = nullptr;
    std::unique_ptr<SoPlex> mp;
@@ -1151,17 +1152,18 @@ static SeqResult run_seq(const Seq& q, Ctx& c, uint64_t beforeHash = 0)
          c.violation(sig_of("crash:sig" + std::to_string(st.c.sig), op), q.str(), "the C function died on signal " + std::to_string(st.c.sig) + ", the mirrored C++ call returned | " + trace);
       else if(st.m.sig)
          c.violation(sig_of("crash-mirror:sig" + std::to_string(st.m.sig), op), q.str(), "the mirrored C++ call died, the C function returned | " + trace);
-      if(!st.asanC.empty() && st.asanC == st.asanM)
+      if(!st.asanM.empty())
       {
-         // the same report from the C call and from the equivalent C++ call: a defect of the C++ library that both reach alike
-         c.count("asan_report_in_C_call_and_identically_in_Cxx_call(not judged)." + st.asanC + "@" + FNAME[op.fn] + "[" + vlabel(op) + "]");
+         // a sanitizer report inside the equivalent C++ call (which runs first): a defect of the C++ library that the C call reaches in the
+         // same way (ASan stays silent the second time).  Not something the C layer adds; counted, printed with C20_DEBUG, and not extended.
+         c.count("asan_report_inside_the_mirrored_Cxx_call(C++ library, not judged)." + st.asanM + "@" + FNAME[op.fn] + "[" + vlabel(op) + "]");
+         if(getenv("C20_DEBUG")) fprintf(stderr, "C20_DEBUG asan report in mirrored C++ call: %s | %s | %s\n", q.str().c_str(), trace.c_str(), st.asanM.c_str());
          dead = true;
       }
-      else
+      if(!st.asanC.empty())
       {
-         if(!st.asanC.empty()) c.violation(st.asanC + "@" + FNAME[op.fn] + "[" + vlabel(op) + "]", q.str(), "AddressSanitizer report inside the C function (mirror: " + (st.asanM.empty() ? std::string("none") : st.asanM) + ") | " + trace);
-         if(!st.asanM.empty()) c.violation("mirror-" + st.asanM + "@" + FNAME[op.fn] + "[" + vlabel(op) + "]", q.str(), "AddressSanitizer report inside the mirrored C++ call (C: " + (st.asanC.empty() ? std::string("none") : st.asanC) + ") | " + trace);
-         if(!st.asanC.empty() || !st.asanM.empty()) diverged = true;
+         c.violation(st.asanC + "@" + FNAME[op.fn] + "[" + vlabel(op) + "]", q.str(), "AddressSanitizer report inside the C function (mirrored C++ call: " + (st.asanM.empty() ? std::string("none") : st.asanM) + ") | " + trace);
+         diverged = true;
       }
       if(dead) break;
       if(st.c.threw != st.m.threw)
@@ -1229,6 +1231,45 @@ static SeqResult run_seq(const Seq& q, Ctx& c, uint64_t beforeHash = 0)
    return res;
 }
 
+// SPxLPBase::readLPF releases its private NameSets without running their destructors (about 1 MB per read on the handle + mirror, also
+// for well-formed input), so a worker that executed every sequence containing an LP-format read itself would grow without bound.  Those
+// sequences are executed in a forked child of the worker; violations and counters reach the worker's result file through the shared sink.
+static SeqResult run_seq_iso(const Seq& q, Ctx& c, uint64_t beforeHash = 0)
+{
+   bool lp = false;
+   for(auto& o : q.ops) if(o.fn == READ_INSTANCE && o.v == 0) lp = true;
+   if(!lp || !c.sink) return run_seq(q, c, beforeHash);
+   int fd[2];
+   if(pipe(fd) != 0) return run_seq(q, c, beforeHash);
+   c.flushDelta();
+   fflush(c.sink);
+   pid_t p = fork();
+   if(p == 0)
+   {
+      close(fd[0]);
+      SeqResult r = run_seq(q, c, beforeHash);
+      c.flushDelta();
+      fflush(c.sink);
+      if(write(fd[1], &r, sizeof r) < 0) {}
+      _exit(0);
+   }
+   close(fd[1]);
+   SeqResult r;
+   ssize_t got = p > 0 ? read(fd[0], &r, sizeof r) : -1;
+   close(fd[0]);
+   int st = 0;
+   if(p > 0) waitpid(p, &st, 0);
+   if(got != (ssize_t)sizeof r)
+   {
+      // the child died outside a guarded call
+      r = SeqResult();
+      c.violation(std::string("crash-in-isolated-sequence:") + (WIFSIGNALED(st) ? "sig" + std::to_string(WTERMSIG(st)) : "exit" + std::to_string(WEXITSTATUS(st)))
+                  + "@" + FNAME[q.ops.back().fn] + "[" + vlabel(q.ops.back()) + "]", q.str(), "the forked executor of a sequence containing an LP-format read died");
+   }
+   c.count("sequences_executed_in_a_forked_child(LP-format read leaks)");
+   return r;
+}
+
 static uint64_t opcode(const Op& o) { return (uint64_t)o.fn * 1000 + o.v + 1; }
 static Op opdecode(uint64_t c) { Op o; c -= 1; o.fn = (int)(c / 1000); o.v = (int)(c % 1000); return o; }
 
@@ -1276,7 +1317,7 @@ int main(int argc, char** argv)
       const First& f = firsts[idx - NI];
       Seq s;
       s.init = f.init; s.ops = {f.op};
-      SeqResult r1 = run_seq(s, c);
+      SeqResult r1 = run_seq_iso(s, c);
       uint64_t h = r1.h;
       c.count("transitions");
       if(!r1.alive) { c.count("subtrees_pruned_after_violation"); return h; }
@@ -1286,7 +1327,7 @@ int main(int argc, char** argv)
             Seq s2 = s;
             s2.ops.push_back(op2);
             set_sub(opcode(op2) * 1000000);
-            SeqResult r2 = run_seq(s2, c, r1.h);
+            SeqResult r2 = run_seq_iso(s2, c, r1.h);
             h = h * 31 + r2.h;
             c.count("transitions");
             if(!r2.alive) { c.count("subtrees_pruned_after_violation"); continue; }
@@ -1296,7 +1337,7 @@ int main(int argc, char** argv)
                   Seq s3 = s2;
                   s3.ops.push_back(op3);
                   set_sub(opcode(op2) * 1000000 + opcode(op3));
-                  h = h * 31 + run_seq(s3, c, r2.h).h;
+                  h = h * 31 + run_seq_iso(s3, c, r2.h).h;
                   c.count("transitions");
                }
          }
